@@ -98,9 +98,11 @@ int main(int argc, char **argv){
     int parallel = atoi(argv[3]), jobs = atoi(argv[4]), batch = atoi(argv[5]);
     int budget = 1 + fpsym_choice(3, 8, 4);   // 1..8 points
     fpsym_note("budget", budget);
-    Model mod(d, g.outputs, jobs + 1, g.family != "wavelet");
+    Model mod(d, g.outputs, jobs + 1, g.family != "wavelet"); bool bad_y_size = false;
     auto model = [&](std::vector<double> const &x, std::vector<double> &y, size_t tid)->void{
-      size_t np = x.size() / d; y.resize(np * g.outputs);
+      size_t np = x.size() / d;
+      // documented contract (no initial guess): on entry y already has one strip of outputs per sample; the model writes in place
+      if (y.size() != np * g.outputs){ bad_y_size = true; y.resize(np * g.outputs); }
       if (tid < mod.busy.size()){ if (mod.busy[tid].fetch_add(1) != 0) mod.overlap = true; }
       for (size_t i=0;i<np;i++) mod.eval(&x[i * d], &y[i * g.outputs], 1000000);
       if (tid < mod.busy.size()) mod.busy[tid].fetch_sub(1);
@@ -115,6 +117,7 @@ int main(int argc, char **argv){
     }
     grid.finishConstruction();
     fpsym_check(mod.total <= budget, "constructSurrogate never launches more than max_num_points samples");
+    fpsym_check(!bad_y_size, "the model is called with y of the documented size (samples x outputs), so that every value is stored at its own sample");
     final_checks(grid, mod, parallel ? "parallel constructSurrogate" : "sequential constructSurrogate");
   } else {
     int threads = atoi(argv[3]);
